@@ -85,6 +85,7 @@ impl Drop for Slot {
 }
 
 pub struct Env {
+    pub burst_next: std::sync::Mutex<std::collections::HashMap<u16, u32>>,
     pub prog: Program,
     pub next_client: AtomicU16,
     pub clients_started: AtomicU32,
@@ -95,11 +96,20 @@ impl Env {
     pub fn new(prog: Program) -> Arc<Env> {
         let n = prog.clients.len() as u16;
         Arc::new(Env {
+            burst_next: Default::default(),
             prog,
             next_client: AtomicU16::new(n),
             clients_started: AtomicU32::new(0),
             clients_done: AtomicU32::new(0),
         })
+    }
+    /// first sequence number of the next burst of client `c`
+    pub fn burst_base(&self, c: u16, count: u32) -> u32 {
+        let mut g = self.burst_next.lock().unwrap_or_else(|e| e.into_inner());
+        let e = g.entry(c).or_insert(0);
+        let b = *e;
+        *e += count;
+        b
     }
     pub fn all_done(&self) -> bool {
         self.clients_done.load(Ordering::SeqCst) >= self.clients_started.load(Ordering::SeqCst)
@@ -274,6 +284,30 @@ async fn exec_op(env: &Arc<Env>, c: u16, i: u16, op: Op, slots: &mut Vec<Slot>) 
             begin(c, i, OpK::ForceSend, hk, Path::Forcing, tag, uid, slot, 0);
             let r = match slots.get(slot as usize).map(|s| &s.h) {
                 Some(H::WSender(a)) => res_of(a.try_force_send(Fire { uid, script: vec![] })),
+                _ => Res::Skipped,
+            };
+            end(c, i, r);
+        }
+        Op::Burst { slot, count, force_every } => {
+            let (tag, hk) = (tag_of(slots, slot), hk_of(slots, slot));
+            begin(c, i, OpK::Burst, hk, Path::Waiting, tag, 0, slot, count as u64);
+            let r = match slots.get(slot as usize).map(|s| &s.h) {
+                Some(H::Addr(a)) => {
+                    let ws = a.weak_sender_seq();
+                    let mut ok = 0u64;
+                    // sequence numbers continue over the bursts of one client
+                    let base = env.burst_base(c, count);
+                    for k in 0..count {
+                        let m = Seq { client: c, n: base + k };
+                        let r = if force_every > 0 && k % force_every as u32 == force_every as u32 - 1 { ws.try_force_send(m) } else { a.send_seq(m).await };
+                        if r.is_ok() {
+                            ok += 1;
+                        } else {
+                            break;
+                        }
+                    }
+                    Res::Count(ok)
+                }
                 _ => Res::Skipped,
             };
             end(c, i, r);
@@ -600,6 +634,25 @@ async fn exec_op(env: &Arc<Env>, c: u16, i: u16, op: Op, slots: &mut Vec<Slot>) 
             } else {
                 end(c, i, Res::Handle { slot: first, some: false });
             }
+        }
+        Op::SpawnRegister { decl } => {
+            let d = env.prog.actors[decl as usize].clone();
+            begin(c, i, OpK::SpawnRegister, Hk::None, Path::NA, d.tag, 0, 0, d.k as u64);
+            let (obj, r) = spawn_register(&d).await;
+            let res = match r {
+                Ok((me, prev)) => {
+                    let s = push(slots, Slot::mk(H::Addr(me), d.tag, c));
+                    let ps = push_prev(slots, prev, d.k, c);
+                    log::log(K::Note(format!("spawn_register obj {obj} slot {s}")));
+                    Res::Prev { ok: true, err: None, prev: ps }
+                }
+                Err(e) => {
+                    push(slots, Slot::empty());
+                    push(slots, Slot::empty());
+                    Res::Prev { ok: false, err: Some(err_name(&e)), prev: None }
+                }
+            };
+            end(c, i, res);
         }
         Op::Fork { ops, moved } => {
             let nc = env.next_client.fetch_add(1, Ordering::SeqCst);
